@@ -71,6 +71,14 @@ func (s *Sched) hook(site, key string) {
 	s.sleepers.Add(-1)
 }
 
+// Sleep lets the calling goroutine sleep on the fake clock like a hook visit
+// does (Settle waits for it).
+func (s *Sched) Sleep(d time.Duration) {
+	s.sleepers.Add(1)
+	time.Sleep(d)
+	s.sleepers.Add(-1)
+}
+
 // Install makes s the process-wide hook of the library; Remove undoes it.
 func (s *Sched) Install() {
 	jrpc2.SetVerifHook(s.hook)
